@@ -56,6 +56,7 @@ func init() {
 	executors["silence"] = execSilence
 	executors["silencegarble"] = execSilenceGarble
 	executors["silencepartial"] = execSilencePartial
+	executors["silencewindow"] = execSilenceWindow
 }
 
 // ------------------------------------------------------------ observed silence
@@ -202,6 +203,52 @@ func execSilenceGarble(in []string) string {
 	}
 	if gap := arrive[1].Sub(tailAt); gap < t35 {
 		return fmt.Sprintf("gap:%d:%d", int64(gap), int64(t35))
+	}
+	return "ok"
+}
+
+// execSilenceWindow: in = rate, fraction (percent of t3.5). After a complete
+// reply the caller waits <fraction> of t3.5 and then issues the next request:
+// the client must still let the REST of t3.5 expire before transmitting.
+func execSilenceWindow(in []string) string {
+	rate, pct := atoi(in[0]), atoi(in[1])
+	_, t35 := modbus.VerifSerialTimings(uint(rate))
+	c := sconn.New(false)
+	var mu sync.Mutex
+	var arrive []time.Time
+	c.OnWrite = func(c *sconn.Conn, b []byte) {
+		now := time.Now()
+		mu.Lock()
+		arrive = append(arrive, now)
+		mu.Unlock()
+		c.Feed(rtuFrame(b[0], b[1], []byte{2, 0x12, 0x34}))
+	}
+	mc, err := modbus.VerifNewClientOnConn(&modbus.ClientConfiguration{
+		URL: "rtuovertcp://x", Timeout: 2 * time.Second, Speed: uint(rate), Logger: quiet}, c)
+	if err != nil {
+		return "err:client"
+	}
+	mc.SetUnitId(1)
+	// heard[k]: when the client took the last byte of reply k off the line (not
+	// later than the instant it records as the line's last activity)
+	var heard []time.Time
+	for k := 0; k < 4; k++ {
+		if _, err := mc.ReadRegisters(0, 1, modbus.HOLDING_REGISTER); err != nil {
+			return "err:" + itoa(k) + ":" + errClass(err)
+		}
+		h := c.LastRead
+		heard = append(heard, h)
+		// busy-wait for precision: the interesting window is narrower than a timer tick
+		target := h.Add(t35 * time.Duration(pct) / 100)
+		for time.Now().Before(target) {
+		}
+	}
+	mu.Lock()
+	defer mu.Unlock()
+	for k := 0; k+1 < len(arrive) && k < len(heard); k++ {
+		if gap := arrive[k+1].Sub(heard[k]); gap < t35 {
+			return fmt.Sprintf("gap:%d:%d", int64(gap), int64(t35))
+		}
 	}
 	return "ok"
 }
@@ -378,6 +425,12 @@ func scnSilence(o *Out, r *Rng, thorough bool) {
 		}
 	}
 	// rejected reply whose tail arrives during the flush (9600 / 14400 bps: t3.5 well above the flush window)
+	// the caller comes back shortly before t3.5 has elapsed (75% .. 97% of it)
+	for _, out := range o.RunMany("silencewindow", []string{"1200 80", "1200 92", "2400 85", "9600 90", "600 97"}) {
+		if out != "ok" {
+			o.Stat("silencewindow:not-ok")
+		}
+	}
 	// late, incomplete reply cut by the deadline (low rates: t3.5 is 32 / 64 ms)
 	for _, out := range o.RunMany("silencepartial", []string{"1200", "600", "2400"}) {
 		if out != "ok" {
